@@ -425,10 +425,16 @@ func matrixC05R(t *testing.T, r *ev.Run, R time.Duration) {
 		}
 		for _, which := range []string{"latest-IK", "latest-SK", "older-IK", "older-SK"} {
 			for _, off := range offsets {
-				for _, variant := range []int{0, 1, 2} {
+				for _, variant := range []int{0, 1, 2, 3} {
 					otherRotates := variant == 1
 					faulty := variant == 2 // a transient read error hits the periodic re-check once per interval
-					name := fmt.Sprintf("c05/%s/R=%s/%s/%s/offset=%s/other=%v/faulty=%v", scriptedBackend, R, nc.name, which, off, otherRotates, faulty)
+					// variant 3: for the whole time after the revocation the KMS cannot wrap new system keys (unwrapping
+					// and the metastore work): encrypts may fail, but none may succeed under the revoked key
+					cannotWrap := variant == 3
+					if cannotWrap && (scriptedBackend != "memory" || (which != "latest-SK" && which != "latest-IK")) {
+						continue
+					}
+					name := fmt.Sprintf("c05/%s/R=%s/%s/%s/offset=%s/other=%v/faulty=%v/kms-cannot-wrap=%v", scriptedBackend, R, nc.name, which, off, otherRotates, faulty, cannotWrap)
 					scripted(t, r, name, OC05|OC01, E, R, P, func(h *hist) {
 						time.Sleep(23 * time.Second)
 						fa := h.factWith(nc.cfg)
@@ -476,6 +482,10 @@ func matrixC05R(t *testing.T, r *ev.Run, R time.Duration) {
 							if faulty {
 								h.w.MS.ReadFaultIn = 1
 								h.p.FaultPct = -1 // faults are placed by the scenario
+							}
+							if cannotWrap {
+								h.w.KMS.FailEncrypts = 8
+								h.p.FaultPct = -1
 							}
 							h.encrypt(s)
 							h.w.MS.ReadFaultIn = 0
